@@ -849,6 +849,24 @@ func (mgr *Manager) updateTagJob(name string, t tag, tagDetails map[string]query
 			t.color = ot.color
 			t.converters = ot.converters
 			t.referencedBy = ot.referencedBy
+			// the tags this definition refers to may have been edited (query, marks) while the job
+			// ran: what it decided from their old answers stays to be re-evaluated
+			for rtn, used := range tagDetails {
+				rt, ok := mgr.tags[rtn]
+				if !ok {
+					continue
+				}
+				stale := rt.Matches.XorCopy(used.Matches)
+				stale.Or(rt.Uncertain)
+				if stale.IsZero() {
+					continue
+				}
+				if slices.Contains(t.features.SubQueryTags, rtn) {
+					t.Uncertain = mgr.allStreams
+					break
+				}
+				t.Uncertain.Or(stale)
+			}
 			for _, converter := range t.converters {
 				mgr.streamsToConvert[converter.Name()].Or(t.Matches)
 			}
